@@ -72,6 +72,8 @@ Inductive expr :=
 | ELocal (n : string)
 | EIndex (e k : expr)            (* e[k] *)
 | EPlus (a b : expr)             (* a + b *)
+| ECoalesce (a b : expr)         (* a ?? b   AbsentCoalesceOperatorNode: b only when a is absent *)
+| EEmptyCoalesce (a b : expr)    (* a ??? b  EmptyCoalesceOperatorNode: b when a is absent or empty *)
 | EMapLit (kvs : list (string * expr)).   (* {"k": e, ...} *)
 
 (* `+` restricted to the model's kinds: the cells of plus_dispositions (pkg/bifs/arithmetic.go) *)
@@ -103,6 +105,8 @@ Fixpoint eval (st : state) (e : expr) : val :=
       | _, _ => VError          (* also map[absent]: "(error)", observed *)
       end
   | EPlus a b => plus (eval st a) (eval st b)
+  | ECoalesce a b => match eval st a with VAbsent => eval st b | v => v end
+  | EEmptyCoalesce a b => match eval st a with VAbsent | VEmpty => eval st b | v => v end
   | EMapLit kvs =>
       (* map literals skip absent values too (MapLiteralNode) *)
       VMap ((fix go (l : list (string * expr)) (acc : amap) : amap :=
@@ -226,9 +230,28 @@ Definition lval_indices (l : lval) : list expr :=
   | LPosName _ | LPosValue _ => []
   end.
 
+(* ---- compound assignment `lhs op= rhs` is built by BuildCompoundAssignmentNode as the assignment `lhs = lhs op rhs`:
+   the lvalue read back as an expression *)
+Fixpoint index_all (e : expr) (idx : list expr) : expr :=
+  match idx with [] => e | i :: idx' => index_all (EIndex e i) idx' end.
+Definition lval_as_expr (l : lval) : option expr :=
+  match l with
+  | LField n idx => Some (index_all (EField n) idx)
+  | LOosvar n idx => Some (index_all (EOosvar n) idx)
+  | LLocal n idx => Some (index_all (ELocal n) idx)
+  | _ => None
+  end.
+Inductive cop := OpPlus | OpCoalesce | OpEmptyCoalesce.
+Definition apply_cop (o : cop) (a b : expr) : expr :=
+  match o with OpPlus => EPlus a b | OpCoalesce => ECoalesce a b | OpEmptyCoalesce => EEmptyCoalesce a b end.
+Definition compound (l : lval) (o : cop) (e : expr) : option stmt :=
+  match lval_as_expr l with Some le => Some (SAssign l (apply_cop o le e)) | None => None end.
+
 (* ---- the accumulation idiom  @sum[$a] += $x  (compound assignment = assignment of `lhs + rhs`) *)
 Definition accumulate : stmt :=
   SAssign (LOosvar "sum" [EField "a"]) (EPlus (EIndex (EOosvar "sum") (EField "a")) (EField "x")).
+(* ... which is what `@sum[$a] += $x` is built into *)
+Definition accumulate_is_compound : compound (LOosvar "sum" [EField "a"]) OpPlus (EField "x") = Some accumulate := eq_refl.
 
 (* run the same program on each record of a stream, threading oosvars (locals and record are per record) *)
 Fixpoint stream (o : amap) (e : amap) (p : list stmt) (recs : list amap) : option amap :=
